@@ -250,7 +250,7 @@ pub fn replay(v: &Value) -> CaseResult {
         }
         Some("c14-read") | Some("c14-write") => only_panics(super::c14::replay(v)),
         Some("c18") => only_panics(super::c18::replay(v)),
-        Some("c15") | Some("c15-reader") | Some("c15-futures-drop") => only_panics(super::c15::replay(v)),
+        Some("c15") | Some("c15-reader") | Some("c15-futures-drop") | Some("c15-walkrm") => only_panics(super::c15::replay(v)),
         _ => only_panics(hist_prop().replay(v)),
     }
 }
